@@ -14,54 +14,74 @@ Definition C12_full_statement : Prop :=
   forall A mA (SA : sim A mA) B mB (SB : sim B mB) prefix init qs,
     run_history A prefix init qs = run_history B prefix init qs.
 
-(* Proved: every sequential history — Create / Update / Delete / Get / List / Count / ListByStream / Compact; correct, stale, zero and future
-   expected revisions; existing, missing, deleted, deleted-and-compacted keys; limits; explicit read revisions — that
-   writes no empty value (finding C12-F1), for any two adapters that refine the contract, whichever reading of
-   DelCurrent (by value / by version) each implements.
-   `plain_ok S`: the batches the programs issue (put-if-absent / compare-and-swap / put / delete, non-empty values) lie
-   outside the C11 deviations of S; `stamped_if_version S`: under the by-version reading every stored key carries a
-   write stamp.  Both are shown below for all adapters. *)
-Theorem C12_engine_independent_except_F1 :
+(* Proved, relative to the set VP of values a history may write (VP must contain every non-empty value): every
+   sequential history — Create / Update / Delete / Get / List / Count / ListByStream / Compact; correct, stale, zero and
+   future expected revisions; existing, missing, deleted, deleted-and-compacted keys; limits; explicit read revisions —
+   whose written values are in VP, for any two adapters that refine the contract (whichever reading of DelCurrent each
+   implements) and accept the values of VP.
+   `plain_ok VP S`: the batches the programs issue (put-if-absent / compare-and-swap / put / delete with values in VP)
+   lie outside the C11 deviations of S; `stamped_if_version S`: under the by-version reading every stored key carries
+   a write stamp. *)
+Theorem C12_engine_independent :
+  forall (VP : bytes -> Prop), (forall v, v <> [] -> VP v) ->
   forall A mA (SA : sim A mA) B mB (SB : sim B mB) prefix init qs,
-    plain_ok SA -> stamped_if_version SA -> plain_ok SB -> stamped_if_version SB -> Forall hist_ok qs ->
+    plain_ok VP SA -> stamped_if_version SA -> plain_ok VP SB -> stamped_if_version SB -> Forall (hist_ok VP) qs ->
     run_history A prefix init qs = run_history B prefix init qs.
 Proof. exact engine_independent. Qed.
-Print Assumptions C12_engine_independent_except_F1.
+Print Assumptions C12_engine_independent.
 
-Theorem C12_plain_ok_all : forall e, plain_ok (sim_of e).
+(* every adapter accepts the non-empty values; memkv, Badger and the wrappers accept every value — TiKV does not
+   (finding C12-F1: a write of an empty value fails on TiKV) *)
+Theorem C12_plain_ok_all : forall e, plain_ok nonempty (sim_of e).
 Proof. exact plain_ok_of. Qed.
 Print Assumptions C12_plain_ok_all.
+
+Theorem C12_plain_ok_any_value : forall e, e <> ETiKV -> plain_ok anyvalue (sim_of e).
+Proof. exact plain_any_of. Qed.
+Print Assumptions C12_plain_ok_any_value.
 
 Theorem C12_stamped_all : forall e, stamped_if_version (sim_of e).
 Proof. exact stamped_of. Qed.
 Print Assumptions C12_stamped_all.
 
-(* the five engine models, concretely *)
-Theorem C12_engines_agree : forall e1 e2 prefix init qs, Forall hist_ok qs ->
+(* all five engine models, on histories that write no empty value: the statement outside finding C12-F1 *)
+Theorem C12_engine_independent_except_F1 : forall e1 e2 prefix init qs, Forall (hist_ok nonempty) qs ->
   run_history (adapter_of e1) prefix init qs = run_history (adapter_of e2) prefix init qs.
 Proof.
   exact (fun e1 e2 prefix init qs H =>
-           engine_independent _ _ (sim_of e1) _ _ (sim_of e2) prefix init qs
+           engine_independent nonempty nonempty_ok _ _ (sim_of e1) _ _ (sim_of e2) prefix init qs
              (plain_ok_of e1) (stamped_of e1) (plain_ok_of e2) (stamped_of e2) H).
 Qed.
-Print Assumptions C12_engines_agree.
+Print Assumptions C12_engine_independent_except_F1.
+
+(* memkv, Badger and the metrics wrapper over them, on EVERY history, empty values included: since Get returns the
+   key-value whatever the value (repair of C16-F8), what is left of C12-F1 is TiKV alone *)
+Theorem C12_engine_independent_storing_empty : forall e1 e2 prefix init qs, e1 <> ETiKV -> e2 <> ETiKV ->
+  run_history (adapter_of e1) prefix init qs = run_history (adapter_of e2) prefix init qs.
+Proof.
+  exact (fun e1 e2 prefix init qs H1 H2 =>
+           engine_independent anyvalue anyvalue_ok _ _ (sim_of e1) _ _ (sim_of e2) prefix init qs
+             (plain_any_of e1 H1) (stamped_of e1) (plain_any_of e2 H2) (stamped_of e2) (hist_any qs)).
+Qed.
+Print Assumptions C12_engine_independent_storing_empty.
 
 (* every adapter answers as the contract itself would (the reference adapter is the contract on a plain map) *)
-Theorem C12_as_contract : forall A m (S : sim A m), plain_ok S -> stamped_if_version S ->
-  forall prefix init qs, Forall hist_ok qs ->
+Theorem C12_as_contract : forall (VP : bytes -> Prop), (forall v, v <> [] -> VP v) ->
+  forall A m (S : sim A m), plain_ok VP S -> stamped_if_version S ->
+  forall prefix init qs, Forall (hist_ok VP) qs ->
   run_history A prefix init qs = run_history radapter prefix init qs.
-Proof. exact (fun A m S H H' prefix init qs => @rel_run_history_all A m S H H' prefix init qs). Qed.
+Proof. exact (fun VP HVP A m S H H' prefix init qs => @rel_run_history_all VP HVP A m S H H' prefix init qs). Qed.
 Print Assumptions C12_as_contract.
 
 (* the compaction pass: every snapshot record stays unchanged-or-missing, so by-value and by-version agree *)
-Theorem C12_compact_pass : forall A m (S : sim A m), plain_ok S -> stamped_if_version S ->
+Theorem C12_compact_pass : forall (VP : bytes -> Prop) A m (S : sim A m), plain_ok VP S -> stamped_if_version S ->
   forall rev lim s r a b, Rel S s r ->
   match worker_run A true rev lim s a b, worker_run radapter true rev lim r a b with
   | None, None => True
   | Some (s', _), Some (r', _) => Rel S s' r'
   | _, _ => False
   end.
-Proof. exact (fun A m S H H' => @rel_worker_run_true A m S H H'). Qed.
+Proof. exact (fun VP A m S H H' => @rel_worker_run_true VP A m S H H'). Qed.
 Print Assumptions C12_compact_pass.
 
 (* the metrics wrapper is transparent for every history, compaction included *)
@@ -70,13 +90,8 @@ Theorem C12_wrapper_transparent : forall A prefix init qs,
 Proof. exact wrapper_transparent. Qed.
 Print Assumptions C12_wrapper_transparent.
 
-(* the full statement is refuted by a write of an empty value (finding C12-F1): memkv returns the key with an empty
-   value, Badger returns no Kv, TiKV refuses the write *)
-Theorem C12_full_refuted_memkv_badger :
-  snd (fst (run_history memkv registry 1000 f1_history)) <> snd (fst (run_history badger registry 1000 f1_history)).
-Proof. exact empty_value_memkv_badger. Qed.
-Print Assumptions C12_full_refuted_memkv_badger.
-
+(* the full statement is refuted by a write of an empty value (finding C12-F1): TiKV refuses the write, memkv and
+   Badger store it and hand the key back *)
 Theorem C12_full_refuted_memkv_tikv :
   snd (fst (run_history memkv registry 1000 f1_history)) <> snd (fst (run_history tikv registry 1000 f1_history)).
 Proof. exact empty_value_memkv_tikv. Qed.
@@ -102,7 +117,7 @@ Definition ex_compact_history : list req :=
    QUpdate ex_key [118; 51] 1002; QGet ex_key 0; QCreate ex_key [118; 52]; QCompact 1004;
    QList (registry ++ [47]) (registry ++ [48]) 0 0].
 
-Example C12_ex_compact_valid : Forall hist_ok ex_compact_history.
+Example C12_ex_compact_valid : Forall (hist_ok nonempty) ex_compact_history.
 Proof. repeat constructor; discriminate. Qed.
 
 (* the pass really deletes: after the first Compact only the compaction record is left in the engine *)
@@ -113,7 +128,7 @@ Example C12_ex_compact_effect :
   snd (fst (run_history memkv registry 1000 ex_compact_history)).
 Proof. split; vm_compute; reflexivity. Qed.
 
-Example C12_ex_valid : Forall hist_ok ex_history.
+Example C12_ex_valid : Forall (hist_ok nonempty) ex_history.
 Proof. repeat constructor; discriminate. Qed.
 
 (* a history in which writes succeed, fail on a condition, a delete tombstones the key and a create revives it;
@@ -136,4 +151,17 @@ Proof. split; vm_compute; reflexivity. Qed.
 Example C12_oracle_rejects :
   c12_oracle (mk_c12 1000 [QUpdate ex_key [118; 49] 7]
                 [mk_run EMem [PUpdate false 1001 None] [] []; mk_run ETiKV [PErr] [] []]) = Some 0.
+Proof. vm_compute. reflexivity. Qed.
+
+(* regression for the repair of C16-F8: memkv and Badger answer the empty-value history alike, with the key returned *)
+Example C12_empty_value_memkv_badger :
+  run_history memkv registry 1000 f1_history = run_history badger registry 1000 f1_history /\
+  snd (fst (run_history badger registry 1000 f1_history)) = [PCreate true 1001; PGet 1001 (Some ([], 1001))].
+Proof. split; [exact empty_value_memkv_badger|vm_compute; reflexivity]. Qed.
+
+(* and the oracle no longer excuses a memkv/Badger disagreement on an empty value as finding C12-F1 *)
+Example C12_oracle_rejects_old_badger_get :
+  c12_oracle (mk_c12 1000 f1_history
+                [mk_run EMem [PCreate true 1001; PGet 1001 (Some ([], 1001))] [] [];
+                 mk_run EBadger [PCreate true 1001; PGet 1001 None] [] []]) = Some 0.
 Proof. vm_compute. reflexivity. Qed.
